@@ -20,23 +20,36 @@ from .common import parallel_map
 
 RULE = ("case = product graph (3-6 names x 1-3 versions, required/optional edges, bare / explicit / expression / "
         "version+[expression] specs, -j, --external, optional products absent, unsetupRequired/unsetupOptional lines (with and without -j) "
-        "in intermediate tables taking away a product the table brought in, a share of the dependency tables already in "
+        "in intermediate tables taking away a product the table brought in and in the expanded table itself (of an absent product, of a leaf it set up, of a leaf it sets up again), a share of the dependency tables already in "
         "expanded form (exact block + inexact branch); 'cf' stream conflict-free by construction, "
         "'arb' stream with arbitrary specs incl. diamond conflicts) + build-time setup of the top product + expansion of its "
         "table (CLI defaults) + 0-4 syntactic/option variants expanded in the same environment + random evolution "
-        "(new lower/higher versions, current moved, absent products appearing) + exact re-setup; a case is non-trivial when "
+        "(new lower/higher versions, current moved, absent products appearing); 12 % of the graphs have a version NAMED like a recognised tag (current, beta) — the build version in the cf stream — while that tag is assigned to another version of the product + exact re-setup; a case is non-trivial when "
         "the build succeeded and set up at least one dependency; distinct = distinct digests of (graph, top table, options)")
 TRUSTED = ["CPython `re` on the six patterns of expandTableFile, `str.split/strip/join`, `%-15s` formatting (hand-translated, "
            "exercised by the text comparison on every run, not verified)",
            "table texts are ASCII with \\n line ends; white space is blank and tab",
            "the answers of the environment (findSetupProduct, getSetupVersion, getDependencies) are data to the model: they are "
            "obtained from the real Eups in the same process right before the real call and cross-checked against the answers "
-           "recorded during the call"]
+           "recorded during the call; since round 3 the set-up versions are also compared with the model of findSetupVersion",
+           "the grouping of passed-through lines into `if` chains (ExpandTable.groupPlain) is unverified code whose answer is checked "
+           "(text reproduced, items well formed) before C17_exact_actions_blocks is applied; the theorems of the C11 model "
+           "(C11_blocks_text, C11_written_command) are used as proved"]
 ASSUMPTIONS = ["version expressions in generated tables are well formed, so Eups.version_match (used only for a warning) does not raise",
                "build-time setup and exact re-setup are one command each, in a fresh process, default product disabled",
                "conflict-free = every request in the closure resolves to the one build version of its product (by construction of the 'cf' stream)"]
 
-NW = 6
+# what the models mirror (fingerprints/C17.json): the expander and its callers; since round 3 also the table reader that the
+# composed model (Expand then TableParse/Cond) runs on the expanded text, and Action.processArgs (`toPin`)
+MIRRORS = [("python/eups/table.py", "expandTableFile"), ("python/eups/table.py", "Table.actions"), ("python/eups/table.py", "Table._read"),
+           ("python/eups/table.py", "Table._rewrite"), ("python/eups/table.py", "Table.__init__"), ("python/eups/table.py", "Action.__init__"),
+           ("python/eups/table.py", "Action.processArgs"), ("python/eups/VersionParser.py", "*"),
+           ("python/eups/app.py", "expandTableFile"), ("python/eups/app.py", "getDependencies"),
+           ("python/eups/Eups.py", "Eups.getDependentProducts"), ("python/eups/Eups.py", "Eups.selectVRO"),
+           ("python/eups/Eups.py", "Eups.makeVroExact"), ("python/eups/Eups.py", "Eups.findSetupProduct"), ("python/eups/Eups.py", "Eups.setup"),
+           ("python/eups/Eups.py", "Eups.findSetupVersion"), ("python/eups/cmd.py", "ExpandtableCmd.execute")]
+
+NW = 4
 
 
 # ---- children: the real code -------------------------------------------------------------------------
@@ -194,7 +207,7 @@ def child_expand(env, path, opts, names):
 
         eups.getDependencies, eups.getSetupVersion, E.findSetupProduct = w_deps, w_sv, w_fsp
         out = io.StringIO()
-        res = {"answers": ans}
+        res = {"answers": ans, "flavor": E.flavor}
         try:
             with open(path) as ifd:
                 if opts.get("recurse", True):
@@ -215,8 +228,12 @@ def child_expand(env, path, opts, names):
     return res
 
 
-def cli_args(path, opts):
-    """The `eups expandtable` command line for these options, or None when the CLI cannot express them."""
+CLI_MODES = ["stdout", "stdout", "inplace", "outdir", "stdin", "warn"]
+
+
+def cli_args(path, opts, mode="stdout"):
+    """The `eups expandtable` command line for these options, or None when the CLI cannot express them.  mode: where the text
+    goes / comes from -- stdout, inplace (-i), outdir (second argument), stdin (`-`), warn (-W regexp: warnings only)."""
     pins = opts["pins"]
     if not opts.get("recurse", True) or any((not v) or ":" in v or "=" in v or ":" in k or "=" in k for k, v in pins.items()):
         return None
@@ -229,26 +246,61 @@ def cli_args(path, opts):
         a.append("-N")
     if not opts["addExactBlock"]:
         a.append("--noExact")
-    top_from_file = os.path.basename(path)[:-len(".table")]
+    if mode == "warn":
+        a += ["-W", "^[vV]"]
+    top_from_file = None if mode == "stdin" else os.path.basename(path)[:-len(".table")]
     if opts["toplevel"] is None:
-        return None                      # the CLI always derives a name from the file
-    if opts["toplevel"] != top_from_file:
+        if top_from_file is not None:
+            return None                  # with a file name the CLI always derives a product name from it
+    elif opts["toplevel"] != top_from_file:
         a += ["-P", opts["toplevel"]]
     return a + [path]
 
 
-def child_cli(env, args):
-    """`eups expandtable ...` through the command class, standard output captured."""
+def child_cli(env, args, mode="stdout", workdir=None):
+    """`eups expandtable ...` through the command class.  -> where the expansion went ("out"), the return code / exception,
+    and for the modes that write files what is left on disk."""
+    import shutil
+    import sys
     import eups.cmd
     os.environ.clear()
     os.environ.update(env)
+    args = list(args)
+    src = args[-1]
+    res = {"mode": mode}
+    target = None
+    if mode in ("inplace", "outdir"):
+        shutil.rmtree(workdir, ignore_errors=True)
+        os.makedirs(os.path.join(workdir, "out"))
+    if mode == "inplace":
+        target = os.path.join(workdir, os.path.basename(src))
+        shutil.copy(src, target)
+        args = args[:-1] + ["-i", target]
+    elif mode == "outdir":
+        target = os.path.join(workdir, "out", os.path.basename(src))
+        args = args + [os.path.join(workdir, "out")]
+    elif mode == "stdin":
+        args = args[:-1] + ["-"]
     out = io.StringIO()
+    old_stdin = sys.stdin
     with _quiet(), contextlib.redirect_stdout(out):
         try:
-            rc = eups.cmd.EupsCmd(args=list(args), toolname="eups").run()
+            if mode == "stdin":
+                sys.stdin = open(src)
+            rc = eups.cmd.EupsCmd(args=args, toolname="eups").run()
+            res["rc"] = rc
         except Exception as ex:  # noqa
-            return {"err": type(ex).__name__, "errmsg": str(ex)[:200]}
-    return {"out": out.getvalue(), "rc": rc}
+            res.update(err=type(ex).__name__, errmsg=str(ex)[:200])
+        finally:
+            sys.stdin = old_stdin
+    res["stdout"] = out.getvalue()
+    if target is not None:
+        res["file"] = open(target).read() if os.path.exists(target) else None
+        with open(src) as f:
+            res["src"] = f.read()
+        res["leftover"] = sorted(x for x in os.listdir(os.path.dirname(target)) if x.endswith(".tmp"))
+    res["out"] = res["stdout"] if target is None else res.get("file")
+    return res
 
 
 def child_actions(env, paths):
@@ -266,6 +318,33 @@ def child_actions(env, paths):
             except Exception as ex:  # noqa
                 outs.append("EXC:" + type(ex).__name__)
     return outs
+
+
+def child_exact_actions(env, path):
+    """The real table parser on the expanded table in exact mode: what `Table(expanded).actions(flavor, ["exact"])` returns."""
+    from eups.table import Table
+    os.environ.clear()
+    os.environ.update(env)
+    with _quiet(), contextlib.redirect_stdout(io.StringIO()):
+        E = common.new_eups()
+        try:
+            acts = Table(path).actions(E.flavor, setupType=["exact"])
+            pa = []          # Action.processArgs on every setup command: [optional, product, version] when it reads `product -j version`
+            for a in acts:
+                if str(a.cmd) == "setupRequired":
+                    try:
+                        vro, pname, pdir, vers, vexpr, extra = a.processArgs(E, fwd=True)
+                        simple = (extra.get("noRecursion") is True and vers is not None and not vexpr and not pdir
+                                  and not extra.get("isExternal") and not extra.get("noAction")
+                                  and len(a.args) == 3)
+                        pa.append([bool(a.extra.get("optional")), pname, vers] if simple else None)
+                    except Exception as ex:  # noqa
+                        pa.append("EXC:" + type(ex).__name__)
+            return {"flavor": E.flavor, "process_args": pa,
+                    "acts": [{"cmd": str(a.cmd), "args": [str(x) for x in a.args], "extra": {k: a.extra[k] for k in sorted(a.extra)}}
+                             for a in acts]}
+        except Exception as ex:  # noqa
+            return {"flavor": E.flavor, "acts": "EXC:" + type(ex).__name__}
 
 
 # ---- one case on the real code --------------------------------------------------------------------------
@@ -330,9 +409,10 @@ def run_case(w, case):
         r = call(child_expand, env1, p, o, names)
         r["text"] = text
         r["opts"] = o
-        ca = cli_args(p, o)
+        mode = case.get("cli_mode", "stdout")
+        ca = cli_args(p, o, mode)
         if ca is not None and case.get("cli_check"):
-            r["cli"] = call(child_cli, env1, ca)
+            r["cli"] = call(child_cli, env1, ca, mode, os.path.join(w.vdir, "cli"))
         res["exps"].append(r)
     main = res["exps"][0]
     if "out" in main and not res.get("tampered"):
@@ -341,6 +421,7 @@ def run_case(w, case):
         with open(xp, "w") as f:
             f.write(main["out"])
         res["actions"] = call(child_actions, w.base, [tpath, xp])
+        res["exact_actions"] = call(child_exact_actions, w.base, xp)
         # evolution, expanded table in place of the original, exact setup from a clean environment
         L.evolve(w.stack, w.ud, case)
         with open(tpath, "w") as f:
@@ -373,7 +454,7 @@ def model_request(exp):
     return {"m": "c17", "op": "expand", "lines": split_lines(exp["text"]), "pins": [[k, v] for k, v in o["pins"].items()],
             "toplevel": o["toplevel"], "force": o["force"], "expandVersions": o["expandVersions"],
             "addExactBlock": o["addExactBlock"], "recurse": o.get("recurse", True),
-            "spv": a["spv"], "sv": a["sv"], "deps": a["deps"]}
+            "spv": a["spv"], "sv": a["sv"], "deps": a["deps"], "flavor": exp.get("flavor", "Linux64")}
 
 
 def canon_lines(ls):
@@ -494,6 +575,33 @@ def oracle_parser(case, res):
                 yield ("keeps_constraints", d)
 
 
+def oracle_exact_actions(case, res):
+    """exact_actions (model-free, real parser): in exact mode the expanded table's setup commands are -j pins of build-time
+    records (besides the `eups` / --external lines of the final block), and everything that is not a setup command of the
+    original table is still there, in order -- yields details."""
+    xa = res.get("exact_actions")
+    acts = res.get("actions")
+    if not isinstance(xa, dict) or not isinstance(acts, list) or len(acts) != 2 or isinstance(acts[0], str):
+        return
+    if isinstance(xa.get("acts"), str):
+        yield "the expanded table does not parse in exact mode: %s" % xa["acts"]
+        return
+    built, pins = res["built"], case["opts"]["pins"]
+    # setup commands = the commands that set a product up or take one away (the expander keeps both kinds in the setup blocks,
+    # i.e. in the inexact branch; exact mode sets the recorded closure up directly)
+    is_setup = lambda c: c in ("setupRequired", "unsetupRequired")  # noqa
+    for a in xa["acts"]:
+        if a["cmd"] != "setupRequired" or "--external" in a["args"] or (a["args"] and a["args"][0] == "eups"):
+            continue
+        ar = [x for x in a["args"] if x != "-j"]           # (the flag may stand anywhere: Action.processArgs)
+        if not ("-j" in a["args"] and len(ar) == 2 and (built.get(ar[0]) == ar[1] or pins.get(ar[0]) == ar[1])):
+            yield "exact mode applies the setup command %r, which is not a -j pin of a build-time record" % (ar,)
+    others_x = [[a["cmd"], a["args"]] for a in xa["acts"] if not is_setup(a["cmd"])]
+    others_o = [[a[0], a[1]] for a in acts[0] if not is_setup(a[0])]
+    if others_x != others_o:
+        yield "commands other than setup commands in exact mode: %r; in the original table: %r" % (others_x, others_o)
+
+
 def build_table(case, n, v):
     for dn, dv, lines in case["decl"]:
         if dn == n and dv == v:
@@ -527,6 +635,13 @@ def d19_class(case, built):
     return False
 
 
+def d74_class(case, built):
+    """Class predicate of D74, from the generator's description: the table being expanded has a required setup line inside an
+    `if` block that does not apply for this flavor, and its product is not set up."""
+    top = build_table(case, *case["top"])
+    return any(l["k"] == "setup" and not l["optional"] and l["name"] not in built for l in L.inactive_setup_lines(top))
+
+
 def complete_env(case, built):
     """Premise of the exact-reproduction clause, from the generator's description: the build-time environment holds
     everything the top table asks for -- following every setup line that is not --external and whose product is set
@@ -544,9 +659,10 @@ def complete_env(case, built):
         # what this table takes away again (unsetupRequired / unsetupOptional) may be missing for it and for everything it
         # set up before -- not for a product reached on another path, which then lacks a dependency
         exempt = exempt | {l["name"] for l in lines if l["k"] == "unsetup"}
+        inactive = L.inactive_setup_lines(lines)
         for l in lines:
             fl = l.get("flags") or []
-            if l["k"] != "setup" or "--external" in fl:
+            if l["k"] != "setup" or "--external" in fl or any(l is x for x in inactive):
                 continue
             q = l["name"]
             if q not in built and q in exempt:
@@ -589,15 +705,27 @@ def oracle_case(case, res):
     cf = case["stream"] == "cf" and complete_env(case, built)
     if "out" not in main:
         if cf and main.get("err") and not main.get("skip"):
-            cls = "D19" if d19_class(case, built) else None
+            if main.get("err") == "NotSetup" and d74_class(case, built) and any(
+                    (" %s is not setup" % l["name"]) in (main.get("errmsg") or "") for l in L.inactive_setup_lines(build_table(case, *case["top"]))):
+                cls = "D74"             # the product the expander misses is the one of a line inside a block that does not apply
+            else:
+                cls = "D19" if d19_class(case, built) else None
             yield ("expansion_succeeds", cls, "conflict-free build with every required dependency set up, yet the "
                    "expansion raised %s (%s)" % (main.get("err"), main.get("errmsg")), 0)
         return
     blk = L.exact_block(main["out"].split("\n"))
     empty_exact = blk is not None and len(blk) == 0
+    # D74, second form: a setup line inside a block of the table that has an else branch -> nested blocks in the expanded table
+    #   (or inside a block that does not apply: the nested `if (type …) {` block makes the parser drop the outer condition, so the
+    #   line is applied after all)
+    nested_else = (L.setup_in_block_with_else(build_table(case, *case["top"]))
+                   or bool(L.inactive_setup_lines(build_table(case, *case["top"]))))
     for clause, detail in oracle_parser(case, res):
         # D4 (table parser, empty branch): `if (type == exact) { } else { X }` drops X in inexact mode, applies it in exact mode
-        yield (clause, "D4" if empty_exact else None, detail, 0)
+        yield (clause, "D74" if nested_else else ("D4" if empty_exact else None), detail, 0)
+    if "exact" not in main["text"]:
+        for detail in oracle_exact_actions(case, res):
+            yield ("exact_actions", "D74" if nested_else else ("D4" if empty_exact else None), detail, 0)
     if cf:
         if res.get("exact_ok") is not True or res.get("exact_records") != built:
             xr = res.get("exact_records") or {}
@@ -619,9 +747,9 @@ def oracle_case(case, res):
 
 # ---- the regular expressions, one by one -------------------------------------------------------------------
 
-RE_TOKENS = ["setupRequired(", "setupRequired(", "setupOptional(", "setupOptional(", ")", ")", "setupRequired", "setup", '"', ")", "(", " ", " ", "\t", "#", "a", "b 1", "eups", "-j",
+RE_TOKENS = ["setupRequired(", "setupRequired(", "setupOptional(", "setupOptional(", "unsetupRequired(", "unsetupOptional(", "un", "u", "n", ")", ")", "setupRequired", "setup", '"', ")", "(", " ", " ", "\t", "#", "a", "b 1", "eups", "-j",
              "[", "]", ">=", "==", "=", " = 1", "<", "{", "}", "if", "(type", "exact)", "--external", "x", "1.0", "\r", "\x0b"]
-REX = r'(setupRequired|setupOptional)\("?([^"]*)"?\)'
+REX = r'((?:un)?setup(?:Required|Optional))\("?([^"]*)"?\)'
 
 
 def gen_re_line(rng):
@@ -645,7 +773,8 @@ def python_re(l):
     mat = re.search(r"^(.*)\s*\]$", a)
     br += [mat.group(1), "]"] if mat else [a]
     return {"blank": bool(re.search(r"^\s*(#.*)?$", l)), "nocomment": re.sub(r"\s*#.*$", "", l),
-            "rex": {"optional": m.group(1) == "setupOptional", "args": m.group(2), "len": len(m.group(0))} if m else None,
+            "rex": {"optional": m.group(1) == "setupOptional", "args": m.group(2), "len": len(m.group(0)),
+                    "unsetup": m.group(1).startswith("unsetup")} if m else None,
             "preExact": bool(re.search(r"if\s*\(type\s*==\s*exact\)\s*{", l)), "openBrace": bool(re.search(r"{\s*$", l)),
             "closeBrace": bool(re.search(r"^\s*}\s*$", l)), "split": l.split(), "strip": l.strip(),
             "relop": bool(re.search(r"<=?|>=?|==", l)), "badrelop": bool(re.match(r"^\s*=\s+\S+", l)),
@@ -695,6 +824,31 @@ def case_input(case):
     return {k: v for k, v in case.items() if not k.startswith("_")}
 
 
+RECOGNISED = ["current", "beta"]       # the tags the harness's startup file makes known (common.mkstacks)
+
+
+def setup_version_requests(case, r):
+    """The model's findSetupVersion asked about every answer `sv` / `spv` of the main expansion: [(name, reported, request)]."""
+    if r.get("build_ok") is not True or r.get("tampered") or not r.get("exps") or "answers" not in r["exps"][0]:
+        return []
+    built, out = r["built"], []
+    tn = case.get("tag_named") or {}
+    for key in ("sv", "spv"):
+        for n, v in r["exps"][0]["answers"][key]:
+            rec = built.get(n)
+            if rec is None:
+                continue
+            if rec == "current":
+                tagged = case["tags"].get(n)
+            elif tn.get("product") == n and tn.get("name") == rec:
+                tagged = tn["tagged"]
+            else:
+                tagged = None
+            declared = any(dn == n and dv == rec for dn, dv, _ in case["decl"])
+            out.append((n, key, v, {"recorded": rec, "declared": declared, "tagged": tagged}))
+    return out
+
+
 def evaluate(ctx, cases):
     if not cases:
         return
@@ -712,8 +866,21 @@ def evaluate(ctx, cases):
                 where.append((ci, ei))
                 reqs.append(model_request(exp))
     answers = ctx.lean.ask_many(reqs)
-    models, hyps = {}, {}
+    # findSetupVersion: the answers `sv` / `spv` against the model (recorded version; a tag name only when no such version is declared)
+    svq = [(ci, q) for ci, (c, r) in enumerate(zip(cases, results)) for q in setup_version_requests(c, r)]
+    if svq:
+        sva = ctx.lean.ask({"m": "c17", "op": "setupversion", "lines": [], "recognised": RECOGNISED, "cases": [q[3] for _, q in svq]})
+        if "bad-op" in sva:
+            raise common.InfraError("driver: %s" % sva["bad-op"])
+        for (ci, (n, key, v, q)), mv in zip(svq, sva["versions"]):
+            ctx.hist("setup_version_checked")
+            if q["recorded"] in RECOGNISED:
+                ctx.hist("tag_named_version_set_up=%s" % q["recorded"])
+            if v != mv:
+                ctx.disagree("setup_version", {"case": case_input(cases[ci]), "product": n, "question": key}, v, mv)
+    models, hyps, raw = {}, {}, {}
     for (ci, ei), a in zip(where, answers):
+        raw[(ci, ei)] = a
         models[(ci, ei)] = model_view(a)
         hyps[(ci, ei)] = model_hyps(a)
         st = same_text(results[ci]["exps"][ei], a)
@@ -729,17 +896,23 @@ def evaluate(ctx, cases):
                  sample=({"top": c["top"], "table": L.table_text(topl), "built": r.get("built"),
                           "expanded": r["exps"][0].get("out") if r["exps"] else None} if ctx.evaluations % 97 == 0 else None))
         ctx.hist("stream=%s" % c["stream"])
+        if c.get("tag_named"):
+            ctx.hist("tag_named_version=%s" % c["tag_named"]["name"])
         if c.get("expanded_deps"):
             ctx.hist("has_expanded_dependency_tables")
         for _, _, ls in c["decl"]:
             for l in ls:
                 if l["k"] == "unsetup":
                     ctx.hist("unsetup_line=%s%s" % ("optional" if l["optional"] else "required", " -j" if l.get("flags") else ""))
+                    if l.get("top"):
+                        ctx.hist("top_table_unsetup_line=%s" % l["top"])
         ctx.hist("build=%s" % r.get("build_ok"))
         if not ok:
             continue
         ctx.hist("closure_size=%d" % min(len(r["built"]) - 1, 5))
         for l in topl:
+            if l["k"] == "setup" and l.get("in_block"):
+                ctx.hist("setup_line_in_own_block=%s" % l["in_block"])
             if l["k"] == "setup":
                 sp = l.get("spec") or {}
                 ctx.hist("spec=%s" % ("+".join(sorted(sp)) or "bare"))
@@ -770,9 +943,21 @@ def evaluate(ctx, cases):
                 # the command-line glue (option parsing, -p list, top-level name from the file name) against the API call
                 cli = exp["cli"]
                 ctx.hist("cli_checked")
-                same = (cli.get("out") == exp["out"] and cli.get("rc") in (0, None)) if "out" in exp else ("err" in cli or cli.get("rc") not in (0, None))
+                ctx.hist("cli_mode=%s" % cli.get("mode"))
+                if "child" in cli:
+                    raise common.InfraError("CLI child failed: %r" % (cli["child"],))
+                failed = "err" in cli or cli.get("rc") not in (0, None)
+                if "out" in exp:
+                    same = (not failed) and cli.get("out") == exp["out"]
+                    if cli.get("mode") in ("inplace", "outdir"):
+                        same = same and cli.get("stdout") == "" and not cli.get("leftover")
+                else:
+                    same = failed
+                    if cli.get("mode") == "inplace":       # a refused expansion leaves the table as it was and no temporary file behind
+                        same = same and cli.get("file") == cli.get("src") and not cli.get("leftover")
                 if not same:
-                    ctx.disagree("cli_vs_api", {"case": inp, "expansion": ei}, {k: cli.get(k) for k in ("out", "rc", "err", "errmsg")},
+                    ctx.disagree("cli_vs_api", {"case": inp, "expansion": ei},
+                                 {k: cli.get(k) for k in ("mode", "out", "rc", "err", "errmsg", "stdout", "leftover")},
                                  {"out": exp.get("out"), "err": exp.get("err")})
         main = r["exps"][0]
         if r.get("tampered"):
@@ -793,6 +978,47 @@ def evaluate(ctx, cases):
                     ctx.hist("cf_closure_with_unsetup_line_checked")
             else:
                 ctx.hist("arb_exact_resetup=%s" % ("same" if r.get("exact_records") == r["built"] and r.get("exact_ok") is True else "differs"))
+            # the expanded table read in exact mode: real parser vs the composed model (Expand then TableParse), and the
+            # hypotheses of C17_exact_actions_text / C17_exact_setup_actions evaluated on the items of the expansion
+            xa, ma = r.get("exact_actions"), (raw.get((ci, 0)) or {}).get("exact") if isinstance(raw.get((ci, 0)), dict) else None
+            if isinstance(xa, dict) and isinstance(ma, dict) and model_main == impl_view(main):
+                if xa.get("flavor") != main.get("flavor"):
+                    raise common.InfraError("flavor differs between the children: %r %r" % (xa.get("flavor"), main.get("flavor")))
+                ctx.hist("hyp_itemOK=%s" % ma["itemOK"])
+                ctx.hist("hyp_inert=%s" % ma["inert"])
+                if not ma["flavorOK"]:
+                    raise common.InfraError("the flavor %r is one of the evaluator's special tokens" % (xa.get("flavor"),))
+                iv2 = xa["acts"] if not isinstance(xa["acts"], str) else "error"
+                if iv2 != ma["direct"]:
+                    ctx.disagree("exact_mode_actions", {"case": inp, "expansion": 0}, iv2, ma["direct"])
+                elif "process_args" in xa and xa["process_args"] != ma.get("pins"):
+                    # the real Action.processArgs against `toPin`, on every setup command of the exact-mode action list
+                    ctx.disagree("process_args", {"case": inp, "expansion": 0}, xa["process_args"], ma.get("pins"))
+                else:
+                    ctx.hist("process_args_checked", len(xa.get("process_args") or []))
+                noex = (hyps.get((ci, 0)) or {}).get("noExactLine")
+                # inexact mode (setupType build): the real parser on the expanded table vs the composed model, and the theorem's instance
+                ra = r.get("actions")
+                if isinstance(ra, list) and len(ra) == 2 and "direct_build" in ma:
+                    mb = ma["direct_build"] if isinstance(ma["direct_build"], str) else [[a["cmd"], a["args"], a["extra"].get("optional")] for a in ma["direct_build"]]
+                    ib = "error" if isinstance(ra[1], str) else ra[1]
+                    if ib != mb:
+                        ctx.disagree("inexact_mode_actions", {"case": inp, "expansion": 0}, ib, mb)
+                    if ma["itemOK"] and c["opts"]["addExactBlock"]:
+                        ctx.hist("inexact_actions_theorem_instance")
+                        if ma["acts_build"] != ma["direct_build"]:
+                            raise common.InfraError("C17_inexact_actions_text contradicted by the driver")
+                ctx.hist("hyp_blocksOK=%s" % ma["blocksOK"])
+                ctx.hist("hyp_inert2=%s" % ma["inert2"])
+                if ma["blocksOK"] and c["opts"]["addExactBlock"]:
+                    ctx.hist("exact_actions_blocks_theorem_instance")
+                    if ma["composed2"] != ma["direct"]:
+                        raise common.InfraError("C17_exact_actions_blocks contradicted by the driver: %r vs %r" % (ma["composed2"], ma["direct"]))
+                if ma["itemOK"] and noex and c["opts"]["addExactBlock"]:
+                    ctx.hist("exact_actions_theorem_instance")
+                    if ma["acts"] != ma["direct"]:
+                        # C17_exact_actions_text says this cannot happen: the driver and the theorem talk about different things
+                        raise common.InfraError("C17_exact_actions_text contradicted by the driver: %r vs %r" % (ma["acts"], ma["direct"]))
             if r.get("exact_type") is not None and "exact" not in r["exact_type"]:
                 raise common.InfraError("the re-setup did not run in exact mode: setupType=%r" % (r["exact_type"],))
         for clause, cls, detail, ei in oracle_case(c, r):
@@ -919,28 +1145,56 @@ def shrink_failures(ctx, limit=3):
 
 
 def run(ctx):
+    import time
+    big = ctx.tier == "thorough" or ctx.escalated
+    # -- the ordinary quick portion, always first and complete (also when the mirrored source changed and `check` escalated the
+    #    budget: the new input classes live in the generated stream, which must not be starved by the enlarged enumerations)
     cases = corpus_cases()
     ctx.hist("corpus", len(cases))
-    evaluate_regexes(ctx, ctx.n(20000, 300000))
     evaluate(ctx, cases)
-    ex = exhaustive_cases(ctx.n(2, 3))
+    evaluate_regexes(ctx, 20000)
+    ex = exhaustive_cases(2)
     ctx.hist("exhaustive_small_tables", sum(len(c["variants"]) for c in ex))
     evaluate(ctx, ex)
-    n = ctx.n(1200, 30000)
     batch = 120
     done = 0
-    import time
-    soft = None if (ctx.tier == "thorough" or ctx.escalated) else ctx.t0 + 120      # keep the quick tier near two minutes on a busy machine
-    while done < n and not ctx.out_of_time() and not (soft and time.time() > soft and done >= 360):
-        k = min(batch, n - done)
+    soft = ctx.t0 + 120                  # keep the quick portion near two minutes on a busy machine, never below 360 graphs
+    while done < 1200 and not ctx.out_of_time() and not (time.time() > soft and done >= 360):
+        k = min(batch, 1200 - done)
         evaluate(ctx, [L.gen_case(ctx.rng) for _ in range(k)])
         done += k
+    # -- the enlarged budget (thorough tier, or quick tier escalated because a mirrored function changed), round-robin over
+    #    the three families so that none is starved when the time limit cuts the run short
+    if big and not ctx.out_of_time():
+        ex3 = [c for c in exhaustive_cases(3) if any(v["text"].count("\n") == 3 for v in c["variants"])]
+        ctx.hist("exhaustive_small_tables", sum(len(c["variants"]) for c in ex3))
+        rex_left = 280000
+        while (done < 30000 or ex3 or rex_left > 0) and not ctx.out_of_time():
+            if done < 30000:
+                k = min(batch, 30000 - done)
+                evaluate(ctx, [L.gen_case(ctx.rng) for _ in range(k)])
+                done += k
+            if ex3 and not ctx.out_of_time():
+                evaluate(ctx, [ex3.pop()])
+            if rex_left > 0 and not ctx.out_of_time():
+                evaluate_regexes(ctx, 20000)
+                rex_left -= 20000
     if ctx.failures:
         shrink_failures(ctx)
     h = ctx.histogram
     if ctx.evaluations >= 100:
         if h.get("build=True", 0) < 0.5 * ctx.evaluations:
             raise common.InfraError("degenerate distribution: only %d of %d builds succeeded" % (h.get("build=True", 0), ctx.evaluations))
+        if ctx.evaluations >= 300 and sum(v for k, v in h.items() if k.startswith("tag_named_version_set_up=")) < 3:
+            raise common.InfraError("degenerate distribution: a version named like a recognised tag was set up in fewer than 3 of %d cases" % ctx.evaluations)
+        if ctx.evaluations >= 300 and not any(k.startswith("top_table_unsetup_line=") for k in h):
+            raise common.InfraError("degenerate distribution: no unsetup line in an expanded table among %d cases" % ctx.evaluations)
+        nb = h.get("hyp_blocksOK=True", 0) + h.get("hyp_blocksOK=False", 0)
+        if nb >= 100 and h.get("hyp_blocksOK=True", 0) < 0.8 * nb:
+            raise common.InfraError("degenerate distribution: the scope condition of C17_exact_actions_blocks holds on only %d of %d expansions"
+                                    % (h.get("hyp_blocksOK=True", 0), nb))
+        if h.get("cli_checked", 0) >= 100 and not all(h.get("cli_mode=%s" % m) for m in set(CLI_MODES)):
+            raise common.InfraError("degenerate distribution: an `eups expandtable` destination mode was never exercised")
         if h.get("exact_block=pins", 0) < 0.3 * ctx.evaluations:
             raise common.InfraError("degenerate distribution: only %d of %d expansions have a non-empty exact block" % (h.get("exact_block=pins", 0), ctx.evaluations))
 
@@ -955,9 +1209,15 @@ def replay(ctx, rp):
     if r.get("build_ok") is True:
         exp = r["exps"][ei]
         iv = impl_view(exp)
-        mv = model_view(ctx.lean.ask(model_request(exp))) if "answers" in exp else None
-        out.update(impl_output=iv, model_output=mv, agree=(iv == mv), exact_records=r.get("exact_records"),
-                   exact_ok=r.get("exact_ok"), actions=r.get("actions"))
+        a = ctx.lean.ask(model_request(exp)) if "answers" in exp else None
+        mv = model_view(a) if a is not None else None
+        xa, ma = r.get("exact_actions"), (a.get("exact") if isinstance(a, dict) else None)
+        xagree = True
+        if ei == 0 and isinstance(xa, dict) and isinstance(ma, dict) and iv == mv:
+            xagree = (xa["acts"] if not isinstance(xa["acts"], str) else "error") == ma["direct"]
+        out.update(impl_output=iv, model_output=mv, agree=(iv == mv and xagree), exact_records=r.get("exact_records"),
+                   exact_ok=r.get("exact_ok"), actions=r.get("actions"), exact_actions=xa,
+                   model_exact_actions=(ma or {}).get("direct"))
         fails = [{"clause": cl, "class": k, "detail": d, "expansion": i} for cl, k, d, i in oracle_case(case, r)]
     out["fails"] = fails
     return out
